@@ -11,6 +11,10 @@
 //   mode 2  the kernel is called by BOTH threads of an application-level `#pragma omp parallel num_threads(2)` region on
 //           private data (nested parallelism disabled: the inner team has ONE thread although max_threads says nt)
 //   mode 3  as mode 2 with one level of nested parallelism enabled (inner teams of nt threads)
+//   mode 4  objects (relaxation, preconditioner, solver) BUILT with nt threads, then omp_set_num_threads(max(1, nt/2))
+//           before they are applied: the team is smaller than the one the schedule was built for
+//   mode 5  built with nt threads, applied after omp_set_num_threads(min(64, 2 nt)): the team is larger (kinds 0-9
+//           have no object that outlives a call: for them modes 4, 5 are mode 0 with the other thread count)
 //   kind    0 inner_product  1 spmv  2 residual  3 axpby  4 axpbypcz  5 vmul  6 gershgorin  7 scaled gershgorin
 //           8 product A*A  9 transpose  10 gauss_seidel pre+post sweep  11 ilu0 apply  12 amg(smoothed_aggregation,
 //           spai0) + cg solve  13 amg(ruge_stuben, gauss_seidel) apply
@@ -44,8 +48,11 @@ static void put_crs(VQ &o, const Crs &C) {
         o.push_back(Q((long)row.size())); for (auto &cv : row) { o.push_back(Q(cv.first)); o.push_back(cv.second); }
     }
 }
+static int g_apply_threads = 0;      // modes 4, 5: thread count requested between construction and application (0 = unchanged)
+static void between() { if (g_apply_threads > 0) omp_set_num_threads(g_apply_threads); }
 static VQ run_kernel(long kind, const In &in) {
     VQ o; const long n = in.A.n;
+    if (kind < 10) between();
     auto A = in.A.crs();
     Vec x(in.x), y(in.y);
     switch (kind) {
@@ -60,16 +67,16 @@ static VQ run_kernel(long kind, const In &in) {
     case 8: { auto C = amgcl::backend::product(*A, *A); put_crs(o, *C); } break;
     case 9: { auto T = amgcl::backend::transpose(*A); put_crs(o, *T); } break;
     case 10: { amgcl::relaxation::gauss_seidel<Backend> gs(*A, amgcl::relaxation::gauss_seidel<Backend>::params(), Backend::params());
-               Vec t(n); gs.apply_pre(*A, y, x, t); gs.apply_post(*A, y, x, t); o.assign(x.data(), x.data() + n); } break;
+               between(); Vec t(n); gs.apply_pre(*A, y, x, t); gs.apply_post(*A, y, x, t); o.assign(x.data(), x.data() + n); } break;
     case 11: { amgcl::relaxation::ilu0<Backend> R(*A, amgcl::relaxation::ilu0<Backend>::params(), Backend::params());
-               Vec z(n); R.apply(*A, y, z); o.assign(z.data(), z.data() + n); } break;
+               between(); Vec z(n); R.apply(*A, y, z); o.assign(z.data(), z.data() + n); } break;
     case 12: { typedef amgcl::make_solver<amgcl::amg<Backend, amgcl::coarsening::smoothed_aggregation, amgcl::relaxation::spai0>, amgcl::solver::cg<Backend>> S;
                S::params p; p.precond.coarse_enough = 2; p.solver.maxiter = 3; p.solver.tol = 0;
-               S s(*A, p); Vec z(n); for (long i = 0; i < n; ++i) z[i] = Q(0);
+               S s(*A, p); between(); Vec z(n); for (long i = 0; i < n; ++i) z[i] = Q(0);
                size_t it; Q res; std::tie(it, res) = s(y, z); o.push_back(Q((long)it)); o.push_back(res); o.insert(o.end(), z.data(), z.data() + n); } break;
     case 13: { typedef amgcl::amg<Backend, amgcl::coarsening::ruge_stuben, amgcl::relaxation::gauss_seidel> P;
                P::params p; p.coarse_enough = 2;
-               P pr(*A, p); Vec z(n); pr.apply(y, z); o.assign(z.data(), z.data() + n); } break;
+               P pr(*A, p); between(); Vec z(n); pr.apply(y, z); o.assign(z.data(), z.data() + n); } break;
     default: throw bad_input("kind");
     }
     return o;
@@ -87,12 +94,18 @@ static Result execute(const Toks &t) {
     long mode = c.nat(), nt = c.nat(), kind = c.nat();
     In in; in.A = c.mat(); in.x = c.vec(); in.y = c.vec(); c.expect_end();
     std::string why; if (!crs_wf(*in.A.crs(), why) || in.A.n != in.A.m || (long)in.x.size() != in.A.n || (long)in.y.size() != in.A.n) throw bad_input("shape");
-    if (mode < 0 || mode > 3 || nt < 1 || nt > 64 || kind < 0 || kind > 13) throw bad_input("enum");
+    if (mode < 0 || mode > 5 || nt < 1 || nt > 64 || kind < 0 || kind > 13) throw bad_input("enum");
     Result r;
     omp_set_dynamic(0); omp_set_max_active_levels(1); omp_set_num_threads(1);
+    g_apply_threads = 0;
     Outcome ref = guarded(kind, in);
     Outcome got[2]; int ncalls = 1;
-    if (mode == 0 || mode == 1) {
+    if (mode == 4 || mode == 5) {
+        omp_set_num_threads((int)nt);
+        g_apply_threads = mode == 4 ? (int)std::max(1L, nt / 2) : (int)std::min(64L, 2 * nt);
+        got[0] = guarded(kind, in);
+        g_apply_threads = 0;
+    } else if (mode == 0 || mode == 1) {
         omp_set_dynamic(mode == 1); omp_set_num_threads((int)nt);
         got[0] = guarded(kind, in);
     } else {
@@ -108,7 +121,8 @@ static Result execute(const Toks &t) {
     omp_set_dynamic(0); omp_set_max_active_levels(1); omp_set_num_threads(1);
     bool ok = true;
     for (int k = 0; k < ncalls; ++k) if (!same(ref, got[k])) ok = false;
-    static const char *mn[] = { "requested team", "dynamic team (omp_set_dynamic)", "called from an application parallel region (inner team of one thread)", "called from an application parallel region, nested parallelism on" };
+    static const char *mn[] = { "requested team", "dynamic team (omp_set_dynamic)", "called from an application parallel region (inner team of one thread)", "called from an application parallel region, nested parallelism on",
+                                "built with nt threads, applied with nt/2", "built with nt threads, applied with 2 nt" };
     if (!ok) r.fail(std::string("kernel ") + std::to_string(kind) + " with " + std::to_string(nt) + " threads, " + mn[mode] + ": result differs from the single-threaded result (exact arithmetic)");
     r.out = ok ? "same" : "differs";
     r.nontrivial = in.A.n > 1 && nt > 1 && !ref.thrown;
@@ -123,7 +137,7 @@ static void generate(Rng &rng, const Opts &o, std::vector<std::string> &lines) {
         long kind = k % 14;
         long n = (kind >= 12) ? rng.range(6, 16) : rng.range(1, o.thorough() ? 120 : 70);
         Mat A = (kind == 12) ? gen_spd(rng, n, (int)rng.range(0, 2), 3) : rng.coin(1, 4) ? gen_convdiff(rng, n) : gen_spd(rng, n, (int)rng.range(0, 3), 3);
-        Line l; l << "team" << rng.range(0, 3) << rng.pick(nts) << kind << A << gen_vec(rng, A.n, true) << gen_vec(rng, A.n, true);
+        Line l; l << "team" << rng.range(0, 5) << rng.pick(nts) << kind << A << gen_vec(rng, A.n, true) << gen_vec(rng, A.n, true);
         lines.push_back(l.get());
     }
     lines.push_back("team 9 2 0 1 1 1 0 1 1 1 1 1");      // unknown mode
